@@ -106,7 +106,7 @@ func (c *Client) Do(req *http.Request) (resp *http.Response, err error) {
 		}
 		return resp, err
 	}
-	if respUnauthorizedNegotiate(resp) {
+	if respUnauthorizedNegotiate(resp) && !strings.HasPrefix(req.Header.Get(HTTPHeaderAuthRequest), HTTPHeaderAuthResponseValueKey+" ") {
 		err := SetSPNEGOHeader(c.krb5Client, req, c.spn)
 		if err != nil {
 			return resp, err
